@@ -27,6 +27,7 @@ type Node struct {
 	Name   string
 	Kind   protoreflect.Kind
 	Oneof  string
+	ValKind protoreflect.Kind // map value kind
 	IsList bool
 	IsMap  bool
 	S      string // singular scalar
@@ -99,6 +100,7 @@ func Of(m protoreflect.Message) *Snap {
 		case fd.IsMap():
 			n.IsMap = true
 			kd, vd := fd.MapKey(), fd.MapValue()
+			n.ValKind = vd.Kind()
 			v.Map().Range(func(k protoreflect.MapKey, mv protoreflect.Value) bool {
 				e := MapEnt{K: scalarString(kd.Kind(), k.Value())}
 				if vd.Message() != nil {
